@@ -158,36 +158,6 @@ def r_C04(root):
     for n in ast.walk(find(mm, "TextXMetaModel.__init__")):
         if isinstance(n, ast.Assign) and ast.unparse(n.targets[0]) == "self._default_obj_processors": procs = {k.value: v for k, v in zip(n.value.keys, n.value.values)}
     if procs is None: raise AnalysisError("default processors table not found")
-    # a: STRING delimiters
-    p = sre.parse(regs["STRING"])
-    branches = p[0][1][1] if p[0][0] is sc.BRANCH else None
-    if branches is None or len(branches) != 2: raise AnalysisError("STRING regex is not a two-branch alternation")
-    rx_tab = {}
-    for b in branches:
-        grp = list(b)[0][1][3] if list(b)[0][0] is sc.SUBPATTERN else list(b)
-        items = list(grp)
-        q = chr(items[0][1]); assert items[-1] == (sc.LITERAL, ord(q))
-        rep = items[1]; body = list(rep[1][2])[0]      # subpattern
-        alts = list(body[1][3])[0][1][1]
-        esc = set()
-        for a in alts:
-            a = list(a)
-            if len(a) == 2 and a[0] == (sc.LITERAL, 92): esc.add(chr(a[1][1]))
-        rx_tab[q] = esc
-    conv = procs["STRING"].body       # IfExp
-    if not isinstance(conv, ast.IfExp): raise AnalysisError("STRING converter is not a conditional expression")
-    def unesc(e):
-        s = set()
-        for c in calls(e):
-            if callee_name(c) == "replace": s.add((c.args[0].value, c.args[1].value))
-        return s
-    qtest = conv.test.comparators[0].value
-    other = next(q for q in rx_tab if q != qtest)
-    cv_tab = {qtest: unesc(conv.body), other: unesc(conv.orelse)}
-    for q in rx_tab:
-        inst += 1
-        want = {("\\" + c, c) for c in rx_tab[q]}
-        if cv_tab[q] != want: out.append(Finding("C04", "C04.a", "textx/metamodel.py", "TextXMetaModel.__init__", ast.unparse(procs["STRING"]), "for delimiter %s the regex escapes %s but the converter unescapes %s" % (q, sorted(rx_tab[q]), sorted(cv_tab[q]))))
     # b: BOOL table
     bp = sre.parse(regs["BOOL"]); alts = list(bp)[0][1][3][0][1][1]
     spell = ["".join(chr(x[1]) for x in a) for a in alts]
